@@ -110,6 +110,8 @@ pub struct FileSpec {
     pub caps: Option<String>,
     pub symlink: Option<String>,
     pub mtime: u32,
+    /// Some(bits): FileOptions::verify is called with these %verify flags (default: not called = all flags)
+    pub verify: Option<u32>,
 }
 
 impl FileSpec {
@@ -123,6 +125,7 @@ impl FileSpec {
             flags: vec![],
             caps: None,
             symlink: None,
+            verify: None,
             mtime: 1_500_000_000,
         }
     }
@@ -151,7 +154,7 @@ impl FileSpec {
     }
     pub fn to_json(&self) -> Value {
         json!({"dest": self.dest, "content": self.content.to_json(), "mode": format!("{:?}", self.mode), "user": self.user, "group": self.group,
-               "flags": self.flags, "caps": self.caps, "symlink": self.symlink, "mtime": self.mtime})
+               "flags": self.flags, "caps": self.caps, "symlink": self.symlink, "mtime": self.mtime, "verify_flags": self.verify})
     }
 }
 
@@ -458,6 +461,9 @@ impl BuildSpec {
             }
             if let Some(c) = &f.caps {
                 o = o.caps(c.clone())?;
+            }
+            if let Some(bits) = f.verify {
+                o = o.verify(rpm::FileVerifyFlags::from_bits_retain(bits));
             }
             for x in &f.flags {
                 o = match *x {
